@@ -11,9 +11,6 @@ Definition plain_op (g mn mx : N) (name : string) : opinfo :=
 Definition mem_op (g mn mx : N) (name memname : string) : opinfo :=
   mkOp true g mn mx false false false false false true true name "pureMemoryGascost" memname.
 
-(* what the interpreter has established before a memory opcode runs *)
-Definition mem_pre (n : Z) (k : nat) (st : list Z) (m : list N) : Prop :=
-  (k <= length st)%nat /\ hd 0 st + n <= Z.of_nat (length m) /\ Z.of_nat (length m) < tt63.
 
 Section Sim.
 Variable gv : list Z.
@@ -410,6 +407,13 @@ Qed.
 Lemma div32_ceil z : (z + 31) / 32 * 32 < z + 32 /\ z <= (z + 31) / 32 * 32.
 Proof. pose proof (N.div_mod (z + 31) 32 ltac:(lia)). pose proof (N.mod_lt (z + 31) 32 ltac:(lia)). lia. Qed.
 
+Lemma fee_mod a b : b <= a -> a - b < two64 -> (a + two64 - b) mod two64 = a - b.
+Proof.
+  intros Hle Hlt. rewrite N.add_sub_swap by exact Hle.
+  pose proof (N.mod_add (a - b) 1 two64 ltac:(discriminate)) as H. rewrite N.mul_1_l in H.
+  rewrite H. apply N.mod_small, Hlt.
+Qed.
+
 Lemma charge_spec (m : list N) last gas1 off n :
   N.of_nat (length m) mod 32 = 0 -> last = cmem_cost (mem_words m) -> gas1 + last <= G0 ->
   (0 <= off)%Z -> 1 <= n <= 32 ->
@@ -455,20 +459,23 @@ Proof.
   - (* expansion *)
     assert (Hw' : w' = q) by (subst w'; lia).
     destruct (N.ltb_spec q 4294967296) as [Hsmall|Hlarge].
-    + assert (Hsq : (q * q) mod two64 = q * q) by (apply N.mod_small; unfold two64; nia).
+    + assert (Hqq : q * q < 18446744073709551616)
+        by (change 18446744073709551616 with (4294967296 * 4294967296); apply N.mul_lt_mono; exact Hsmall).
+      assert (Hsq : (q * q) mod two64 = q * q) by (apply N.mod_small; unfold two64; exact Hqq).
       assert (Hl3 : (q * 3) mod two64 = q * 3) by (apply N.mod_small; unfold two64; lia).
       rewrite Hsq, Hl3.
-      assert (Hdiv : q * q / 512 < 36028797018963968) by (apply N.div_lt_upper_bound; nia).
+      assert (Hdiv : q * q / 512 < 36028797018963968) by (apply N.div_lt_upper_bound; lia).
       assert (Htot : (q * 3 + q * q / 512) mod two64 = cmem_cost q)
         by (unfold cmem_cost; rewrite N.mod_small by (unfold two64; lia); lia).
       rewrite Htot. rewrite <- Hw'.
       assert (Hfee : (cmem_cost w' + two64 - last) mod two64 = cost).
-      { subst cost. rewrite Hlast. fold w.
-        replace (cmem_cost w' + two64 - cmem_cost w) with (cmem_cost w' - cmem_cost w + 1 * two64) by lia.
-        rewrite N.mod_add by (unfold two64; lia). apply N.mod_small.
-        rewrite Hw'. unfold cmem_cost, two64. lia. }
-      rewrite Hfee. destruct (gas1 <? cost) eqn:E4; [lia|].
-      repeat split; try lia. rewrite Hw'. reflexivity.
+      { subst cost. rewrite Hlast. apply fee_mod; [exact Hmono|].
+        eapply N.le_lt_trans; [apply N.le_sub_l|]. rewrite Hw'. unfold cmem_cost, two64. clear - Hsmall Hdiv. lia. }
+      rewrite Hfee. destruct (gas1 <? cost) eqn:E4; [apply N.ltb_lt; exact E4|].
+      apply N.ltb_ge in E4.
+      split; [exact E4|]. split; [reflexivity|]. split; [reflexivity|].
+      split; [clear - Hqpos; lia|]. split; [rewrite Hw'; reflexivity|].
+      clear - Hq2 Hoff. subst zN. lia.
     + (* the square wraps: too expensive for both *)
       assert (Hc : gas1 < cost) by (apply Hbig; lia).
       set (sq := (q * q) mod two64). set (l3 := (q * 3) mod two64).
@@ -477,15 +484,337 @@ Proof.
       { apply N.div_lt_upper_bound; [lia|]. subst sq. pose proof (N.mod_lt (q * q) two64 ltac:(unfold two64; lia)). unfold two64 in *. lia. }
       rewrite Hl3. rewrite (N.mod_small (q * 3 + sq / 512)) by (unfold two64; lia).
       assert (Hfee : gas1 < (q * 3 + sq / 512 + two64 - last) mod two64).
-      { replace (q * 3 + sq / 512 + two64 - last) with (q * 3 + sq / 512 - last + 1 * two64) by lia.
-        rewrite N.mod_add by (unfold two64; lia). rewrite N.mod_small by (unfold two64; lia). lia. }
+      { rewrite fee_mod.
+        - clear - Hgas HG0 Hlarge. lia.
+        - clear - Hgas HG0 Hlarge. lia.
+        - eapply N.le_lt_trans; [apply N.le_sub_l|]. unfold two64. clear - Hsqb E2. lia. }
       apply N.ltb_lt in Hfee. rewrite Hfee. exact Hc.
   - (* no expansion *)
     assert (Hw' : w' = w) by (subst w'; lia).
     assert (Hcost : cost = 0) by (subst cost; rewrite Hw'; lia).
-    rewrite ltb_0_r, Hcost, Hw', <- Hlast. repeat split; try lia.
-    unfold mem_resize. fold L. replace (L <? q * 32) with false by lia.
-    replace (L <? w * 32) with false by lia. reflexivity.
+    rewrite ltb_0_r, Hcost, Hw', <- Hlast. apply N.ltb_ge in E3.
+    split; [lia|]. split; [lia|]. split; [reflexivity|]. split; [clear - Hqpos; lia|]. split.
+    + unfold mem_resize. fold L. replace (L <? q * 32) with false by (clear - E3; lia).
+      replace (L <? w * 32) with false by (clear - HL; lia). reflexivity.
+    + clear - Hq2 Hoff E3. subst zN. lia.
+Qed.
+
+(* ---- one step of a memory opcode -------------------------------------------------------- *)
+Lemma step_mem s g mn mx name memname body z :
+  entry (get_op code (i_pc s)) = mem_op g mn mx name memname ->
+  exec_stmt bodies name (get_op code (i_pc s)) = Some body ->
+  mem_size_fn memname (i_cfg s) = Some z ->
+  match (if N.of_nat (length (stack (i_cfg s))) <? mn then None
+         else if mx <? N.of_nat (length (stack (i_cfg s))) then None
+         else if i_gas s <? g then None
+         else charge (N.of_nat (length (mem (i_cfg s)))) (i_memcost s) (i_gas s - g) z) with
+  | None => exists st, st <> st_ok /\ step tbl bodies code s = fail st s
+  | Some (ms, gas2, total) =>
+      step tbl bodies code s =
+      match run_body code (i_pc s) body
+              (if 0 <? ms then set_mem (i_cfg s) (mem_resize (mem (i_cfg s)) ms) else i_cfg s) with
+      | None => fail st_crash s
+      | Some c2 => Next (mkI c2 (i_pc s + pc_extra name (get_op code (i_pc s)) + 1) gas2 total)
+      end
+  end.
+Proof.
+  intros He Hx Hz. unfold step. fold (entry (get_op code (i_pc s))). rewrite He.
+  cbn [mem_op o_valid o_gas o_min o_max o_halts o_jumps o_writes o_reverts o_returns o_dyn o_mem
+       o_exec o_dynname o_memname negb orb].
+  destruct (_ <? mn); [eexists; split; [|reflexivity]; discriminate|].
+  destruct (mx <? _); [eexists; split; [|reflexivity]; discriminate|].
+  destruct (i_gas s <? g); [eexists; split; [|reflexivity]; discriminate|].
+  rewrite Hz. unfold charge, msize_of.
+  destruct ((z <? 0) || (Z.of_N two64 <=? z))%Z; [eexists; split; [|reflexivity]; discriminate|].
+  destruct (two64 <=? to_word_size (Z.to_N z) * 32); [eexists; split; [|reflexivity]; discriminate|].
+  unfold dyn_gas_fn. cbn [String.eqb Ascii.eqb Bool.eqb].
+  destruct (memory_gas_cost _ _ _) as [[fee total]|]; [|eexists; split; [|reflexivity]; discriminate].
+  destruct (i_gas s - g <? fee); [eexists; split; [|reflexivity]; discriminate|].
+  rewrite Hx. reflexivity.
+Qed.
+
+Lemma mem_resize_length m ms : N.of_nat (length (mem_resize m ms)) = N.max (N.of_nat (length m)) ms.
+Proof.
+  unfold mem_resize. destruct (N.ltb_spec (N.of_nat (length m)) ms).
+  - rewrite app_length, repeat_length. lia.
+  - lia.
+Qed.
+
+Lemma sim_memop s (d a : nat) n name memname body F :
+  WFI s ->
+  entry (get_op code (i_pc s)) = mem_op 3 (N.of_nat d) (1024 + N.of_nat d - N.of_nat a) name memname ->
+  exec_stmt bodies name (get_op code (i_pc s)) = Some body ->
+  pc_extra name (get_op code (i_pc s)) = 0 ->
+  mem_size_fn memname (i_cfg s) = Some (back (i_cfg s) 0 + Z.of_N n)%Z ->
+  1 <= n <= 32 -> (1 <= d)%nat -> (a <= d)%nat ->
+  body_correct gv body (mem_pre (Z.of_N n) d) F ->
+  (forall st m, (d <= length st)%nat -> length (fst (F st m)) = (length st - d + a)%nat) ->
+  (forall st m, (0 <= hd 0 st)%Z -> (hd 0 st + Z.of_N n <= Z.of_nat (length m))%Z ->
+                length (snd (F st m)) = length m) ->
+  forall off r, svals (i_cfg s) = off :: r ->
+  res_rel (step tbl bodies code s)
+    (let '(w', cost) := expand (p_mem (abs s)) off n in
+     spec_apply (abs s) d a (3 + cost) 1
+       (fun _ => Some (F (p_stack (abs s)) (mem_resize (p_mem (abs s)) (w' * 32))))).
+Proof.
+  intros Hs He Hx Hpx Hz Hn Hd Had Hok HlenF HmemF off r Est.
+  pose proof Hs as [Hwf Hdep Hm32 Hcost Hgas].
+  pose proof (svals_length (i_cfg s)) as Hl.
+  assert (Hback : back (i_cfg s) 0 = off).
+  { unfold back. unfold svals in Est. destruct (stack (i_cfg s)) as [|l ls]; [discriminate|].
+    cbn in *. congruence. }
+  assert (Hoff : inrange off).
+  { destruct Hwf as [_ _ Hr _ _ _]. unfold svals in Est. destruct (stack (i_cfg s)) as [|l ls]; [discriminate|].
+    cbn [map] in Est. injection Est as <- _. apply Forall_cons_iff in Hr. apply Hr. }
+  rewrite Hback in Hz.
+  pose proof (step_mem s 3 _ _ _ _ _ _ He Hx Hz) as Hstep.
+  unfold expand, abs. cbn [p_mem p_stack]. cbv zeta.
+  destruct (N.of_nat (length (stack (i_cfg s))) <? N.of_nat d) eqn:E1.
+  { destruct Hstep as (st & Hst & ->). rewrite spec_apply_exc by (cbn [p_stack]; lia). apply fail_exc, Hst. }
+  destruct (1024 + N.of_nat d - N.of_nat a <? N.of_nat (length (stack (i_cfg s)))) eqn:E2.
+  { destruct Hstep as (st & Hst & ->). rewrite spec_apply_exc by (cbn [p_stack]; lia). apply fail_exc, Hst. }
+  destruct (i_gas s <? 3) eqn:E3.
+  { destruct Hstep as (st & Hst & ->). rewrite spec_apply_exc by (cbn [p_gas]; lia). apply fail_exc, Hst. }
+  pose proof (charge_spec (mem (i_cfg s)) (i_memcost s) (i_gas s - 3) off n Hm32 Hcost ltac:(lia)
+                ltac:(unfold inrange in Hoff; lia) Hn) as Hch.
+  cbv zeta in Hch.
+  set (w' := N.max (mem_words (mem (i_cfg s))) ((Z.to_N off + n + 31) / 32)) in *.
+  set (cost := cmem_cost w' - cmem_cost (mem_words (mem (i_cfg s)))) in *.
+  destruct (charge _ _ _ _) as [[[ms gas2] total]|].
+  2:{ destruct Hstep as (st & Hst & ->). rewrite spec_apply_exc by (cbn [p_gas]; lia). apply fail_exc, Hst. }
+  destruct Hch as (Hc1 & Hg2 & Htot & Hms & Hres & Hfit).
+  replace (0 <? ms) with true in Hstep by lia.
+  set (c1 := set_mem (i_cfg s) (mem_resize (mem (i_cfg s)) ms)) in *.
+  assert (Hwf1 : WF gv c1).
+  { destruct Hwf as [A B C D E G]. constructor; cbn [c1 set_mem stack pool heap next mem]; try assumption.
+    apply bytes_ok_resize, G. }
+  assert (Hsv1 : svals c1 = svals (i_cfg s)) by reflexivity.
+  assert (Hlen1 : N.of_nat (length (mem c1)) = w' * 32).
+  { cbn [c1 set_mem mem]. rewrite Hres, mem_resize_length. pose proof (mem_words_len _ Hm32). subst w'. lia. }
+  assert (Hw'b : w' < 4294967296).
+  { pose proof (cmem_lin w'). unfold gas_bound in HG0. lia. }
+  assert (Hpre : mem_pre (Z.of_N n) d (svals c1) (mem c1)).
+  { unfold mem_pre. rewrite Hsv1, Est. cbn [hd]. split; [rewrite <- Est; lia|]. split.
+    - cbn [c1 set_mem mem]. pose proof (mem_resize_length (mem (i_cfg s)) ms). lia.
+    - pose proof two37_lt_tt63. change (2 ^ 37)%Z with 137438953472%Z in *. lia. }
+  destruct (Hok code (i_pc s) c1 Hwf1 Hpre) as (c' & Hrun & Hwf' & Hres').
+  rewrite Hstep, Hrun. rewrite Hsv1 in Hres'. cbn [c1 set_mem mem] in Hres'. rewrite Hres in Hres'.
+  pose proof (HlenF (svals (i_cfg s)) (mem_resize (mem (i_cfg s)) (w' * 32)) ltac:(lia)) as HlF.
+  assert (HmF : length (snd (F (svals (i_cfg s)) (mem_resize (mem (i_cfg s)) (w' * 32)))) =
+                length (mem_resize (mem (i_cfg s)) (w' * 32))).
+  { apply HmemF; rewrite Est; cbn [hd]; [unfold inrange in Hoff; lia|].
+    rewrite <- Hres. pose proof (mem_resize_length (mem (i_cfg s)) ms). lia. }
+  destruct (F (svals (i_cfg s)) (mem_resize (mem (i_cfg s)) (w' * 32))) as [rs rm] eqn:ER.
+  cbn [fst snd] in HlF, HmF. injection Hres' as Hsv' Hmem'.
+  erewrite spec_apply_ok; cbn [p_stack p_gas p_pc]; [| lia | lia | lia | reflexivity].
+  eexists. split; [reflexivity|]. split.
+  - constructor; cbn [i_cfg i_gas i_memcost]; try assumption.
+    + rewrite <- svals_length, Hsv'. lia.
+    + rewrite Hmem', HmF, mem_resize_length.
+      pose proof (mem_words_len _ Hm32). replace (N.max _ _) with (w' * 32) by (subst w'; lia).
+      apply N.mod_mul. lia.
+    + rewrite Htot. f_equal. unfold mem_words. rewrite Hmem', HmF, mem_resize_length.
+      pose proof (mem_words_len _ Hm32). replace (N.max _ _) with (w' * 32) by (subst w'; lia).
+      rewrite N.div_mul by lia. reflexivity.
+    + pose proof (cmem_mono (mem_words (mem (i_cfg s))) w' ltac:(subst w'; lia)). lia.
+  - unfold abs. cbn [i_cfg i_pc i_gas]. rewrite Hsv', Hmem', Hpx. f_equal; lia.
+Qed.
+
+Lemma bitlen_le_256 b : inrange b -> (0 <= bitlen_of b <= 256)%Z.
+Proof.
+  unfold inrange. rewrite tt256_eq. intros Hb. unfold bitlen_of.
+  destruct (b =? 0)%Z eqn:E; [lia|]. rewrite Z.abs_eq by lia.
+  pose proof (Z.log2_nonneg b). assert (Z.log2 b < 256)%Z by (apply Z.log2_lt_pow2; lia). lia.
+Qed.
+
+Lemma sim_exp s a b r : WFI s -> get_op code (i_pc s) = 10 -> svals (i_cfg s) = a :: b :: r ->
+  res_rel (step tbl bodies code s)
+    (spec_apply (abs s) 2%nat 1%nat (10 + 50 * byte_len b) 1 (fun _ => Some (spec_exp a b :: r, p_mem (abs s)))).
+Proof.
+  intros Hs Hop Est. pose proof Hs as [Hwf Hdep Hm32 Hcost Hgas].
+  destruct (t_exp Htbl) as (name & body & He & Hx & Hpx & Hok).
+  pose proof (svals_length (i_cfg s)) as Hl. rewrite Est in Hl. cbn [length] in Hl.
+  assert (Hb : back (i_cfg s) 1 = b /\ inrange b).
+  { unfold back. destruct Hwf as [_ _ Hr _ _ _]. unfold svals in Est.
+    destruct (stack (i_cfg s)) as [|l1 [|l2 ls]]; try discriminate.
+    cbn [map] in Est. injection Est as _ <- _. cbn. split; [reflexivity|].
+    apply Forall_cons_iff in Hr as [_ Hr]. apply Forall_cons_iff in Hr as [Hr _]. exact Hr. }
+  destruct Hb as [Hback Hbr]. pose proof (bitlen_le_256 b Hbr) as Hbl.
+  assert (Hdc : ((Z.to_N (bitlen_of b) + 7) / 8 * 50 + 10) mod two64 = 10 + 50 * byte_len b).
+  { unfold byte_len. assert ((Z.to_N (bitlen_of b) + 7) / 8 < 33) by (apply N.div_lt_upper_bound; lia).
+    rewrite N.mod_small by (unfold two64; lia). lia. }
+  unfold step. fold (entry (get_op code (i_pc s))). rewrite Hop, He.
+  cbn [o_valid o_gas o_min o_max o_halts o_jumps o_writes o_reverts o_returns o_dyn o_mem
+       o_exec o_dynname o_memname negb orb].
+  replace (N.of_nat (length (stack (i_cfg s))) <? 2) with false by lia.
+  replace (1025 <? N.of_nat (length (stack (i_cfg s)))) with false by lia.
+  rewrite ltb_0_r, N.sub_0_r. unfold dyn_gas_fn. cbn [String.eqb Ascii.eqb Bool.eqb].
+  rewrite Hback, Hdc. unfold abs.
+  destruct (i_gas s <? 10 + 50 * byte_len b) eqn:E3.
+  { rewrite spec_apply_exc by (cbn [p_gas]; lia). apply fail_exc. discriminate. }
+  cbn [N.ltb N.compare]. rewrite Hx.
+  destruct (Hok code (i_pc s) (i_cfg s) (spec_exp a b :: r) Hwf ltac:(rewrite Est; reflexivity))
+    as (c' & Hrun & Hwf' & Hsv & Hmem).
+  rewrite Hrun. erewrite spec_apply_ok; cbn [p_stack p_gas p_pc]; [| rewrite Est; cbn [length]; lia | rewrite Est; cbn [length]; lia | lia | reflexivity].
+  eexists. split; [reflexivity|]. split.
+  - constructor; cbn [i_cfg i_gas i_memcost]; try assumption.
+    + rewrite <- svals_length, Hsv. cbn [length]. lia.
+    + rewrite Hmem. exact Hm32.
+    + rewrite Hmem. exact Hcost.
+    + lia.
+  - unfold abs. cbn [i_cfg i_pc i_gas]. rewrite Hsv, Hmem, Hpx. f_equal. lia.
+Qed.
+
+Lemma sim_under s : o_valid (entry (get_op code (i_pc s))) = true ->
+  N.of_nat (length (stack (i_cfg s))) < o_min (entry (get_op code (i_pc s))) ->
+  res_rel (step tbl bodies code s) PExc.
+Proof.
+  intros Hv Hlt. unfold step. fold (entry (get_op code (i_pc s))). rewrite Hv. cbn [negb].
+  replace (N.of_nat (length (stack (i_cfg s))) <? o_min (entry (get_op code (i_pc s)))) with true by lia.
+  apply fail_exc. discriminate.
+Qed.
+
+(* ---- one step ---------------------------------------------------------------------------- *)
+Theorem step_sim s : WFI s -> res_rel (step tbl bodies code s) (spec_step code (abs s)).
+Proof.
+  intros Hs. unfold spec_step. change (p_pc (abs s)) with (i_pc s).
+  pose proof (svals_length (i_cfg s)) as Hl.
+  destruct (comp_spec (get_op code (i_pc s))) as [[f g]|] eqn:Ec.
+  { exact (sim_comp s f g Hs Ec). }
+  destruct (get_op code (i_pc s) =? 0) eqn:E0.
+  { apply sim_stop; [exact Hs|lia]. }
+  destruct (get_op code (i_pc s) =? 10) eqn:E10.
+  { assert (Hop : get_op code (i_pc s) = 10) by lia.
+    destruct (t_exp Htbl) as (name & body & He & _).
+    pose proof (sim_exp s) as Hexp. unfold abs in *. cbn [p_stack p_mem] in *.
+    destruct (svals (i_cfg s)) as [|a [|b r]] eqn:Est; cbn [length] in Hl.
+    - apply sim_under; rewrite Hop, He; cbn [o_valid o_min]; [reflexivity|lia].
+    - apply sim_under; rewrite Hop, He; cbn [o_valid o_min]; [reflexivity|lia].
+    - exact (Hexp a b r Hs Hop eq_refl). }
+  destruct (get_op code (i_pc s) =? 80) eqn:E80.
+  { apply sim_pop; [exact Hs|lia]. }
+  destruct (get_op code (i_pc s) =? 81) eqn:E81.
+  { assert (Hop : get_op code (i_pc s) = 81) by lia.
+    destruct (t_mload Htbl) as (name & body & He & Hx & Hpx & Hok).
+    rewrite <- Hop in Hx, Hpx. pose proof He as He'. rewrite <- Hop in He'.
+    pose proof (sim_memop s 1%nat 1%nat 32 name "memoryMLoad" body _ Hs He' Hx Hpx eq_refl
+                  ltac:(lia) ltac:(lia) ltac:(lia) Hok) as H.
+    cbv beta in H. specialize (H ltac:(intros st m Hd; destruct st; cbn in *; lia) ltac:(intros; reflexivity)).
+    unfold abs in *. cbn [p_stack p_mem] in *.
+    destruct (svals (i_cfg s)) as [|off r] eqn:Est; cbn [length] in Hl.
+    - apply sim_under; rewrite Hop, He; cbn [mem_op o_valid o_min]; [reflexivity|lia].
+    - exact (H off r eq_refl). }
+  destruct (get_op code (i_pc s) =? 82) eqn:E82.
+  { assert (Hop : get_op code (i_pc s) = 82) by lia.
+    destruct (t_mstore Htbl) as (name & body & He & Hx & Hpx & Hok).
+    rewrite <- Hop in Hx, Hpx. pose proof He as He'. rewrite <- Hop in He'.
+    pose proof (sim_memop s 2%nat 0%nat 32 name "memoryMStore" body _ Hs He' Hx Hpx eq_refl
+                  ltac:(lia) ltac:(lia) ltac:(lia) Hok) as H.
+    cbv beta in H.
+    specialize (H ltac:(intros st m Hd; destruct st as [|? [|? ?]]; cbn in *; lia)).
+    specialize (H ltac:(intros st m H0 Hfit; cbn [snd]; unfold mem_write;
+                        rewrite !app_length, firstn_length, skipn_length, be_bytes_length; lia)).
+    unfold abs in *. cbn [p_stack p_mem] in *.
+    destruct (svals (i_cfg s)) as [|off [|v r]] eqn:Est; cbn [length] in Hl.
+    - apply sim_under; rewrite Hop, He; cbn [mem_op o_valid o_min]; [reflexivity|lia].
+    - apply sim_under; rewrite Hop, He; cbn [mem_op o_valid o_min]; [reflexivity|lia].
+    - exact (H off (v :: r) eq_refl). }
+  destruct (get_op code (i_pc s) =? 83) eqn:E83.
+  { assert (Hop : get_op code (i_pc s) = 83) by lia.
+    destruct (t_mstore8 Htbl) as (name & body & He & Hx & Hpx & Hok).
+    rewrite <- Hop in Hx, Hpx. pose proof He as He'. rewrite <- Hop in He'.
+    pose proof (sim_memop s 2%nat 0%nat 1 name "memoryMStore8" body _ Hs He' Hx Hpx eq_refl
+                  ltac:(lia) ltac:(lia) ltac:(lia) Hok) as H.
+    cbv beta in H.
+    specialize (H ltac:(intros st m Hd; destruct st as [|? [|? ?]]; cbn in *; lia)).
+    specialize (H ltac:(intros st m H0 Hfit; cbn [snd]; unfold mem_write;
+                        rewrite !app_length, firstn_length, skipn_length; cbn [length]; lia)).
+    unfold abs in *. cbn [p_stack p_mem] in *.
+    destruct (svals (i_cfg s)) as [|off [|v r]] eqn:Est; cbn [length] in Hl.
+    - apply sim_under; rewrite Hop, He; cbn [mem_op o_valid o_min]; [reflexivity|lia].
+    - apply sim_under; rewrite Hop, He; cbn [mem_op o_valid o_min]; [reflexivity|lia].
+    - exact (H off (v :: r) eq_refl). }
+  destruct (get_op code (i_pc s) =? 89) eqn:E89.
+  { apply sim_msize; [exact Hs|lia]. }
+  destruct ((96 <=? get_op code (i_pc s)) && (get_op code (i_pc s) <=? 127))%bool eqn:Epush.
+  { apply sim_push; [exact Hs|lia]. }
+  destruct ((128 <=? get_op code (i_pc s)) && (get_op code (i_pc s) <=? 143))%bool eqn:Edup.
+  { apply sim_dup; [exact Hs|lia]. }
+  destruct ((144 <=? get_op code (i_pc s)) && (get_op code (i_pc s) <=? 159))%bool eqn:Eswap.
+  { apply sim_swap; [exact Hs|lia]. }
+  destruct (spec_unassigned (get_op code (i_pc s))) eqn:Eu.
+  { apply sim_invalid, Eu. }
+  exact I.
+Qed.
+
+(* ---- any number of steps --------------------------------------------------------------- *)
+Lemma top_abs s : top_val (i_cfg s) = ptop (abs s).
+Proof.
+  unfold top_val, ptop, abs, svals. cbn [p_stack]. destruct (stack (i_cfg s)); reflexivity.
+Qed.
+
+Theorem run_sim n : forall s tops, WFI s ->
+  fst (spec_run code n (abs s) tops) <> PUnsupported ->
+  exists r, run tbl bodies code n s tops = (r, snd (spec_run code n (abs s) tops)) /\
+            res_rel r (fst (spec_run code n (abs s) tops)).
+Proof.
+  induction n as [|n IH]; intros s tops Hs Hsup.
+  - cbn [run spec_run fst snd]. eexists. split; [reflexivity|]. exists s. auto.
+  - cbn [run spec_run] in *. pose proof (step_sim s Hs) as Hstep.
+    destruct (spec_step code (abs s)) as [p'|p'| |] eqn:Esp; cbn [res_rel] in Hstep.
+    + destruct Hstep as (s' & -> & Hs' & <-). rewrite top_abs. apply IH; assumption.
+    + destruct Hstep as (s' & -> & <-). cbn [fst snd]. rewrite top_abs.
+      eexists. split; [reflexivity|]. exists s'. auto.
+    + destruct Hstep as (st & s' & -> & Hst & Hg). cbn [fst snd].
+      replace (st =? st_ok) with false by (apply eq_sym, N.eqb_neq, Hst).
+      eexists. split; [reflexivity|]. exists st, s'. auto.
+    + cbn [fst] in Hsup. congruence.
+Qed.
+
+(* ---- the initial state is well-formed, whatever junk the pool holds -------------------- *)
+Lemma init_heap_out vals : forall start h l, (l < start \/ start + N.of_nat (length vals) <= l) ->
+  init_heap vals start h l = h l.
+Proof.
+  induction vals as [|v r IH]; intros start h l Hl; cbn [init_heap]; [reflexivity|].
+  rewrite IH by (cbn [length] in Hl; lia). apply upd_other. cbn [length] in Hl. lia.
+Qed.
+Lemma init_heap_in vals : forall start h i v, nth_error vals i = Some v ->
+  init_heap vals start h (start + N.of_nat i) = v.
+Proof.
+  induction vals as [|x r IH]; intros start h i v Hi; [destruct i; discriminate|].
+  cbn [init_heap]. destruct i as [|i].
+  - cbn in Hi. injection Hi as ->. rewrite init_heap_out by lia. rewrite N.add_0_r. apply upd_same.
+  - cbn [nth_error] in Hi. replace (start + N.of_nat (S i)) with (start + 1 + N.of_nat i) by lia.
+    apply IH, Hi.
+Qed.
+Lemma seqN_in start n l : In l (seqN start n) <-> start <= l < start + N.of_nat n.
+Proof.
+  revert start. induction n as [|n IH]; intros start; cbn [seqN In].
+  - lia.
+  - rewrite IH. lia.
+Qed.
+Lemma seqN_nodup start n : NoDup (seqN start n).
+Proof.
+  revert start. induction n as [|n IH]; intros start; cbn [seqN]; constructor; [|apply IH].
+  rewrite seqN_in. lia.
+Qed.
+
+Lemma init_wf pool0 gas : gas <= G0 -> WFI (init_state gv pool0 gas).
+Proof.
+  intros Hg. unfold init_state, init_cfg. constructor; cbn [i_cfg i_gas i_memcost stack mem].
+  - constructor; cbn [stack pool heap next mem app].
+    + apply NoDup_rev, seqN_nodup.
+    + apply Forall_forall. intros l Hl. apply in_rev, seqN_in in Hl. unfold allocated. lia.
+    + constructor.
+    + intros i v Hi. rewrite init_heap_out.
+      * pose proof (init_heap_in gv 0 (fun _ => 0%Z) i v Hi) as H. rewrite N.add_0_l in H. exact H.
+      * left. assert (i < length gv)%nat by (apply nth_error_Some; congruence). lia.
+    + lia.
+    + constructor.
+  - cbn. lia.
+  - reflexivity.
+  - reflexivity.
+  - lia.
 Qed.
 
 End Sim.
